@@ -239,7 +239,8 @@ class MAMixin(object):
             kind = "MA" if ((a_arr and sa.kind == "MA") or (b_arr and sb.kind == "MA")) else "ND"
             # payload of a masked comparison = comparison of the payloads (numpy 1.26, conformance-checked)
             new = ArrState(kind, BOOLDT, ref.shape, lambda c: b2r(self._cmp(opn, va(c), vb(c))),
-                           (lambda c: z3.Or(ma(c), mb(c))) if kind == "MA" else (lambda c: z3.BoolVal(False)))
+                           (lambda c: z3.Or(ma(c), mb(c))) if kind == "MA" else (lambda c: z3.BoolVal(False)),
+                           sel=ref.sel, selkey=ref.selkey, space=ref.space)
             yield s1, s1.alloc(new)
 
     # ------------------------------------------------------------------ attributes / methods
@@ -477,7 +478,15 @@ class MAMixin(object):
             raise Unsupported("positional indexing of an array")
         cond, ikind, key = self.index_cond(st, idx)
         if s.sel is not None:
-            raise Unsupported("indexing a selection")
+            # selecting from a selection: the index must itself live on that selection
+            si = self.arr_state(st, idx) if self.is_arr(st, idx) else None
+            if si is None or si.selkey != s.selkey:
+                raise Unsupported("indexing a selection with a foreign index")
+            inner = s.sel
+            new = ArrState(s.kind, s.dtype, smt.fresh("selshape", Shape), s.val, s.miss,
+                           sel=lambda c, inner=inner, cond=cond: z3.And(inner(c), cond(c)), selkey=(s.selkey, key), space=("sel", s.selkey, key))
+            yield st, st.alloc(new)
+            return
         # boolean / where() selection: the selected cells, as a copy (payload-based for masked indices)
         new = ArrState(s.kind, s.dtype, smt.fresh("selshape", Shape), s.val, s.miss, sel=cond, selkey=key, space=("sel", key))
         yield st, st.alloc(new)
